@@ -215,7 +215,8 @@ def concrete_split(ak, c, data, via=None, extra=None):
     the replay patches _duration_to_nb_windows the same way the harness does)"""
     import auditok.core as rcore
     sw, ch, sr, B = c["sw"], c["ch"], c["sr"], c["B"]
-    seq = iter([c["min_length"], c["max_length"], c["mcs"]])
+    import itertools
+    seq = itertools.cycle([c["min_length"], c["max_length"], c["mcs"]])
     orig = rcore._duration_to_nb_windows
     rcore._duration_to_nb_windows = lambda *a, **k: next(seq)
     calls = []
@@ -291,6 +292,7 @@ def replay(c):
 
 
 def run(rep):
+    tok.VALIDATE[0] = replay_fn
     b = BOUNDS[rep.tier]
     L = loader.load()
     rep.hashes = L.hashes
